@@ -332,15 +332,15 @@ def pl_eval(slopes, bps, x):
 
 
 def compl_ok(body, xv, lb, ub, flags):
-    """body complements variable: standard AMPL semantics for finite/infinite variable bounds.
-    flags bit1(=1): constraint body upper infinite ... we use the variable-bound form: lb <= x <= ub  complements  body:
-    x == lb -> body >= 0 ; x == ub -> body <= 0 ; lb < x < ub -> body == 0."""
-    lo_fin, up_fin = lb != -math.inf, ub != math.inf
-    if lo_fin and xv == lb and (not up_fin or lb != ub):
-        if up_fin and xv == ub:
-            return True
+    """lb <= x <= ub  complements  body (AMPL semantics, decided by the variable's own bounds):
+    x == lb -> body >= 0 ; x == ub -> body <= 0 ; lb < x < ub -> body == 0 ; a variable at both bounds (fixed) leaves body free."""
+    at_lb = lb != -math.inf and xv == lb
+    at_ub = ub != math.inf and xv == ub
+    if at_lb and at_ub:
+        return True
+    if at_lb:
         return body >= 0
-    if up_fin and xv == ub:
+    if at_ub:
         return body <= 0
     return body == 0
 
@@ -405,6 +405,17 @@ class G:
             kind = r.randint(0, 4); a = self.q(-6, 6); b = a + Fr(r.randint(1, 16), 4)
             lb, ub = [(a, b), (-math.inf, b), (a, math.inf), (a, a), (a, b)][kind]
             m.cons.append(dict(expr=e, lin=lin, lb=lb, ub=ub))
+        if p['compl'] and m.cons and r.random() < 0.25:
+            # "lb <= x_j <= ub complements body_i": x_j at lb -> body >= 0, at ub -> body <= 0, strictly inside -> body == 0
+            i = r.randrange(len(m.cons)); j = r.randrange(nv)
+            v = m.vars[j]
+            m.compl[i] = (j, (1 if v['lb'] != -math.inf else 0) | (2 if v['ub'] != math.inf else 0))
+        if p['sos'] and nv >= 3 and r.random() < 0.25:
+            k = r.randint(3, nv); js = r.sample(range(nv), k)
+            g = r.choice([1, -1])          # > 0: SOS1, < 0: SOS2
+            w = r.sample(range(1, 9), k)
+            m.suffixes.append(dict(kind=0, float=False, name='sosno', values={j: g for j in js}))
+            m.suffixes.append(dict(kind=0, float=True, name='ref', values={j: Fr(w[t]) for t, j in enumerate(js)}))
         if p['logical']:
             for _ in range(r.randint(*p['nlcons'])):
                 m.lcons.append(self.logical(r.randint(1, p['depth'])))
